@@ -340,7 +340,13 @@ def scenario(res, seed, tier):
         sks = [x.encode() for x in sks]
     bare = b"profile" if use_bytes else "profile"
     pairs = [(sk, bare) for sk in dict.fromkeys(sks)]
-    want = _c.Counter((owner(sk), prefix + kb(bare)) for sk, _ in pairs)
+    if rng.random() < 0.5:
+        # the other spelling (str <-> bytes) of one of the server keys, with a bare key of its own, in the same batch: a
+        # server key is routed as the object it is, in a multi-key call exactly as in a single-key one
+        other = sks[0].decode() if isinstance(sks[0], bytes) else sks[0].encode()
+        pairs.append((other, b"settings" if use_bytes else "settings"))
+        res.count("batches_with_both_spellings_of_a_server_key")
+    want = _c.Counter((owner(sk), prefix + kb(b_)) for sk, b_ in pairs)
     for opn, verb, call in (("set_many", b"set", lambda: hc.set_many({p: b"pv" for p in pairs})),
                             ("get_many", b"get", lambda: hc.get_many(pairs)),
                             ("gets_many", b"gets", lambda: hc.gets_many(pairs)),
